@@ -131,7 +131,12 @@ fn gen(r: &mut Rng, out: &mut Out) -> String {
         16 => format!("{t}[k] = v print(1)"),
         _ => "other[k] = v".to_owned(),
     };
-    let comment = match r.below(10) {
+    let comment = match r.below(14) {
+        // comments that merely look like filters: an extra dash, a word in front (ordinary comments everywhere in selene)
+        10 => "--- selene: allow(manual_table_clone)\n",
+        11 => "---- selene: deny(manual_table_clone)\n",
+        12 => "-- see selene: allow(manual_table_clone)\n",
+        13 => "--[[- selene: allow(manual_table_clone) ]]\n",
         0..=4 => "",
         5 => "-- selene: allow(manual_table_clone)\n",
         6 => "-- an ordinary note\n",
@@ -188,5 +193,20 @@ pub fn run(args: &Args, out: &mut Out) {
             Err(_) => atom("panic"),
         };
         out.case("CLONE.prog", &list(vec![chunk, st(&origin), st(&src), list(fc.found), toks]), &imp);
+        // a comment that merely looks like a filter is an ordinary comment: the program and the same program with a plain note
+        // in its place are diagnosed alike (C13), whole Checker, filters applied
+        for near in ["--- selene: allow(manual_table_clone)\n", "---- selene: deny(manual_table_clone)\n", "-- see selene: allow(manual_table_clone)\n", "--[[- selene: allow(manual_table_clone) ]]\n"] {
+            if src.contains(near) {
+                let plain = src.replace(near, "-- an ordinary note\n");
+                if let (Some(a), Some(b)) = (crate::twin::run_checker(&checker, &plain), crate::twin::run_checker(&checker, &src)) {
+                    out.bump("near_filter_comment_pairs");
+                    out.case(
+                        "REL.c13",
+                        &list(vec![st(&origin), st(&plain), st(&src)]),
+                        &list(vec![boolean(a.2.tokens.len() == b.2.tokens.len()), list(a.0.iter().map(st).collect()), list(b.0.iter().map(st).collect())]),
+                    );
+                }
+            }
+        }
     }
 }
